@@ -192,23 +192,31 @@ package net
 // dvisited: slot of the last handler whose filter was consulted by the current dispatch. Every
 // handler that is live when the table is locked is consulted (no early exit from the slot loop).
 //@ ghostfield dvisited int counter
+// hkeep: the answer (keep) the handler's filter gave when it was last consulted. A handler leaves the
+// table in a dispatch exactly when its filter said so - whether or not it selected the message.
+//@ ghostfield hkeep bool counter
+// (also in the cones of C11 - a reply that arrives before Send returns is delivered to the handler
+// registered beforehand - and C13 - events reach the subscriber's handler once, in arrival order)
 //@ func (e *endPoint) dispatch(msg *Message) (err error)
-//@   tags C17 C10 C12 C04
+//@   tags C17 C10 C12 C04 C11 C13
 //@   requires !e.handlersMutex.lockw && msg != nil && e.stream != nil
-//@   modifies everything, e.dvisited
+//@   modifies everything, e.dvisited, allof(hkeep)
 //@   ensures !e.handlersMutex.lockw
-//@   ensures[C10] forall k int {at_lock(e.handlers[k])} :: e.dvisited < k && k < at_lock(len(e.handlers)) ==> at_lock(e.handlers[k]) == nil
+//@   call dyn#1: ghost_after h.hkeep := result1
+//@   ensures[C17] forall k int {at_lock(e.handlers[k])} :: 0 <= k && k < at_lock(len(e.handlers)) && at_lock(e.handlers[k]) != nil ==> (at_lock(e.handlers[k]).hkeep ==> at_unlock(e.handlers[k]) == at_lock(e.handlers[k])) && (!at_lock(e.handlers[k]).hkeep ==> at_unlock(e.handlers[k]) == nil)
+//@   ensures[C10,C04,C11,C13] forall k int {at_lock(e.handlers[k])} :: e.dvisited < k && k < at_lock(len(e.handlers)) ==> at_lock(e.handlers[k]) == nil
 //@   call Lock#1: ghost e.dvisited := -1
-//@   call dyn#1: assert[C10] e.dvisited < i
+//@   call dyn#1: assert[C10,C04,C11,C13] e.dvisited < i
 //@   call dyn#1: ghost e.dvisited := i
 // what is offered is the message being dispatched, to the queue of the handler whose filter selected
 // it (C04: a reply reaches the caller whose filter matched it, and nobody else's queue)
-//@   call select#1: assert[C10,C04] matched && arg1 == msg && arg0 == h.consumer && h == at_lock(e.handlers[i])
+//@   call select#1: assert[C10,C04,C11,C13] matched && arg1 == msg && arg0 == h.consumer && h == at_lock(e.handlers[i])
 //@   ensures[C17] at_unlock(len(e.handlers)) == at_lock(len(e.handlers))
 //@   ensures[C17] forall i int {at_unlock(e.handlers[i])} :: 0 <= i && i < at_lock(len(e.handlers)) ==> at_unlock(e.handlers[i]) == at_lock(e.handlers[i]) || (at_unlock(e.handlers[i]) == nil && at_lock(e.handlers[i]) != nil && at_lock(e.handlers[i]).hclosed == 1 && at_lock(e.handlers[i]).consumer.chclosed)
 //@   loop 1:
 //@     invariant e.handlersMutex.lockw && e.handlers == at_lock(e.handlers) && e.stream != nil && msg != nil
 //@     invariant forall k int {e.handlers[k]} :: rangeindex < k && k < len(e.handlers) ==> e.handlers[k] == at_lock(e.handlers[k])
+//@     invariant forall k int {at_lock(e.handlers[k])} :: 0 <= k && k <= rangeindex && k < len(e.handlers) && at_lock(e.handlers[k]) != nil ==> at_lock(e.handlers[k]).hslot == k && (at_lock(e.handlers[k]).hkeep ==> e.handlers[k] == at_lock(e.handlers[k])) && (!at_lock(e.handlers[k]).hkeep ==> e.handlers[k] == nil)
 //@     invariant -1 <= e.dvisited && e.dvisited <= rangeindex && forall k int {at_lock(e.handlers[k])} :: e.dvisited < k && k <= rangeindex && k < len(e.handlers) ==> at_lock(e.handlers[k]) == nil
 //@     invariant forall k int {e.handlers[k]} :: 0 <= k && k < len(e.handlers) && e.handlers[k] != nil ==> allocated(e.handlers[k]) && allocated(e.handlers[k].consumer) && e.handlers[k].hclosed == 0 && e.handlers[k].consumer != nil && !e.handlers[k].consumer.chclosed && e.handlers[k].consumer.chowned && e.handlers[k].hslot == k && e.handlers[k].consumer.chslot == k
 //@     invariant forall k int {e.handlers[k]} :: 0 <= k && k < len(e.handlers) ==> e.handlers[k] == at_lock(e.handlers[k]) || (e.handlers[k] == nil && at_lock(e.handlers[k]) != nil && at_lock(e.handlers[k]).hclosed == 1 && at_lock(e.handlers[k]).consumer.chclosed)
@@ -272,7 +280,7 @@ package net
 //@ func (e *endPoint) process()
 //@   tags C10 C11 C12
 //@   requires e.stream != nil && !e.handlersMutex.lockw && e.nread == e.ndisp
-//@   modifies everything, e.nread, e.ndisp, e.nclose, e.dvisited
+//@   modifies everything, e.nread, e.ndisp, e.nclose, e.dvisited, allof(hkeep)
 //@   ensures[C11] e.nclose == old(e.nclose) + 1
 //@   call Read#1: assume 0 <= e.stream.pos && e.stream.pos <= e.stream.len
 //@   call Read#1: assert[C10] e.nread == e.ndisp
